@@ -92,7 +92,8 @@ Proof.
       rewrite ?N.eqb_refl, ?action_eqb_refl; cbn; cheap; mid;
       try match goal with H : action_eqb ?x ?x = false |- _ =>
             rewrite action_eqb_refl in H; discriminate H end;
-      try (exfalso; first [specialize (Hp2 eq_refl) | specialize (Hp1 eq_refl)]; discriminate);
-      repeat split; rewrite ?orb_true_r; try reflexivity; destruct a; reflexivity.
+      try (exfalso; first [specialize (Hp2 eq_refl eq_refl) | specialize (Hp1 eq_refl)]; discriminate);
+      repeat split; rewrite ?orb_true_r; try reflexivity; destruct a; try reflexivity;
+      exfalso; specialize (Hp2 eq_refl eq_refl); discriminate.
     + unfold_spec. cbn. rewrite E0. repeat split.
 Qed.
